@@ -206,6 +206,11 @@ class TU:
             return self._const_eval(e['inner'][0])
         if k == 'IntegerLiteral':
             return int(e['value'])
+        if k == 'UnaryExprOrTypeTraitExpr' and e.get('name') == 'sizeof':
+            if 'argType' in e:
+                t = e['argType']
+                return self.parse_type(t.get('desugaredQualType') or t['qualType'], t['qualType']).size
+            return self.ctype_of(e['inner'][0]).size
         if k == 'DeclRefExpr':
             return self.enums[e['referencedDecl']['name']]
         if k == 'UnaryOperator' and e['opcode'] == '-':
